@@ -413,13 +413,7 @@ func (h *H) checkStoppedLeak(w *W) {
 	for _, c := range h.Ctls {
 		if c.W == w && (c.Op == "Stop" || c.Op == "WaitAndStop") && c.Done && c.Err == nil {
 			if n := vrt.LiveLib(""); n > 0 && len(h.Ws) == 1 {
-				names := ""
-				vrt.ThreadsSnapshot(func(t *vrt.Thread) {
-					if t.Lib && !t.Env && !t.Done() {
-						names += " " + t.Name
-					}
-				})
-				h.viol("C18", "C18.leak-after-stop", "goroutines still alive after Stop returned:"+names)
+				h.viol("C18", "C18.leak-after-stop", "goroutines still alive after Stop returned:"+liveNames())
 			}
 			if st := w.Wk.Status(); st != "Stopped" {
 				h.viol("C14", "C14.status-after-stop", "Status() is "+st+" after Stop returned")
